@@ -29,6 +29,15 @@ pub fn run(case: &Value) -> Value {
         let loc = string_of(&p[1]).replace("$TMP", &tmp.path().to_string_lossy());
         paths.insert(string_of(&p[0]).parse().unwrap(), PathBuf::from(loc));
     }
+    // earlier runs' output next to the destination: <dest>/../<id with / replaced by _>/buildpack.toml for EVERY id the
+    // descriptor mentions -- only the id -> path map says where a buildpack was packaged
+    if case["stale_siblings"] == true {
+        for id in ["a/b", "a/c", "x/y", "verif/one", "app", "a b"] {
+            let d = tmp.path().join(id.replace('/', "_"));
+            fs::create_dir_all(&d).unwrap();
+            fs::write(d.join("buildpack.toml"), format!("api = \"0.10\"\n[buildpack]\nid = \"{id}\"\nversion = \"0.0.1\"\n")).unwrap();
+        }
+    }
     let res = package_composite_buildpack(&src, &dest, &paths);
     let tmp_s = tmp.path().to_string_lossy().to_string();
     let out = match res {
